@@ -5,3 +5,12 @@ package ecs
 // Mask vocabulary for the default (256 bit) build.
 
 //@ spec func mhas(m bitMask, i uint8) bool := m256has(m, i)
+
+// Word-level subset (quantifier free); msubView proves that it is the subset relation of the
+// set-of-bits view.
+//@ spec func msub(a bitMask, b bitMask) bool :=
+//@   a.bits[0]&b.bits[0] == a.bits[0] && a.bits[1]&b.bits[1] == a.bits[1] && a.bits[2]&b.bits[2] == a.bits[2] && a.bits[3]&b.bits[3] == a.bits[3]
+//@ spec func mempty(a bitMask) bool := a.bits[0] == 0 && a.bits[1] == 0 && a.bits[2] == 0 && a.bits[3] == 0
+
+//@ lemma msubView(a bitMask, b bitMask) serves C08 C03 := msub(a, b) == (forall i uint8 :: mhas(a, i) ==> mhas(b, i))
+//@ lemma memptyView(a bitMask) serves C08 C03 := mempty(a) == (forall i uint8 :: !mhas(a, i))
